@@ -76,7 +76,7 @@ def prepare_alt():
         return
     os.makedirs(ALTROOT, exist_ok=True)
     with Lock("alt"):
-        run(["rsync", "-a", "--delete", "--exclude", "MM/Gen/", os.path.join(VERIF, "lean") + "/", LEAN + "/"])
+        run(["rsync", "-a", "--delete", "--exclude", "MM/Gen/", "--exclude", ".lake/", "--exclude", "Drv/", "--exclude", "lakefile.toml", "--exclude", "lake-manifest.json", os.path.join(VERIF, "lean") + "/", LEAN + "/"])
         os.makedirs(os.path.join(LEAN, "MM", "Gen"), exist_ok=True)
 
 
@@ -736,10 +736,14 @@ class Check:
 
 
 def load_known():
-    try:
-        return json.load(open(os.path.join(VERIF, "known_findings.json"))).get("findings", [])
-    except OSError:
-        return []
+    """known/<ID>.json files are the committed source; known_findings.json is their generated index."""
+    out = []
+    d = os.path.join(VERIF, "known")
+    if os.path.isdir(d):
+        for f in sorted(os.listdir(d)):
+            if f.endswith(".json"):
+                out.extend(json.load(open(os.path.join(d, f))).get("findings", []))
+    return out
 
 
 def run_extractor(spec):
